@@ -46,11 +46,12 @@ def Lit.val? : Lit → Option Nat
 def Lit.val (l : Lit) : Nat := l.val?.getD 0
 
 /-- A sized literal holds its value in the stated width. -/
-def Lit.fits : Lit → Bool
+def Lit.fits (l : Lit) : Bool :=
+  match l with
   | .plain _ => true
-  | .sized w b ds =>
-    match (baseOf b).bind (fun bb => digitsVal bb ds.toList) with
-    | some v => v < 2 ^ w
+  | .sized w _ _ =>
+    match l.val? with
+    | some v => decide (v < 2 ^ w)
     | none => false
 
 def Lit.numDigits : Lit → Nat
